@@ -6,7 +6,7 @@
       0<=f<6 /\ 0<=l<=30 /\ 0<=k<4^l /\ c = f*2^61 + (2k+1)*4^(30-l). *)
 From Coq Require Import ZArith List Bool Floats Reals.
 From Geo Require Import Base.GoPrim Gen.CellIDFull Model.CellIDTables
-  Base.F64Arith Proofs.C01_Tables Proofs.C01_Algebra Proofs.C01_IJ Proofs.C01_Advance Proofs.C01_Iter Proofs.C01_Point Proofs.C01_Text Proofs.C01_Hilbert Proofs.C01_Inverse Proofs.C01_Nbr Proofs.C01_WrapInside Proofs.C01_Nbr2 Proofs.C01_WrapSide Proofs.C01_WrapAdj Proofs.StUV_Mono.
+  Base.F64Arith Proofs.C01_Tables Proofs.C01_Algebra Proofs.C01_IJ Proofs.C01_Advance Proofs.C01_AdvanceClamp Proofs.C01_Iter Proofs.C01_Point Proofs.C01_Text Proofs.C01_Hilbert Proofs.C01_Inverse Proofs.C01_Nbr Proofs.C01_WrapInside Proofs.C01_Nbr2 Proofs.C01_WrapSide Proofs.C01_WrapAdj Proofs.StUV_Mono.
 (* the hand models compared with Go by the observer (built with this file: one make target) *)
 From Geo Require Model.C01Obs.
 From Geo Require Import Model.CellIDNbr.
@@ -161,6 +161,36 @@ Proof.
   - intros n Hn Hn'. exact (AdvanceWrap_periodic c f l k n H Hn Hn').
 Qed.
 Print Assumptions c01_advance_wrap_steps.
+
+(** Advance (the clamped variant): index arithmetic saturating at the first cell of the level and at
+    End(level), for every valid id and every int64 step count *)
+Theorem c01_advance_is_clamped_index_plus_n : forall c f l k n, rep c f l k -> - 2 ^ 63 <= n < 2 ^ 63 ->
+  s2_CellID_Advance c n = (2 * Z.max 0 (Z.min (6 * 4 ^ l) (index f l k + n)) + 1) * 4 ^ (30 - l) /\
+  (0 <= index f l k + n < 6 * 4 ^ l ->
+     s2_CellID_Advance c n = s2_CellID_AdvanceWrap c n /\
+     rep (s2_CellID_Advance c n) ((index f l k + n) / 4 ^ l) l ((index f l k + n) mod 4 ^ l)) /\
+  (index f l k + n <= 0 -> s2_CellID_Advance c n = 4 ^ (30 - l)) /\
+  (6 * 4 ^ l <= index f l k + n -> s2_CellID_Advance c n = 6 * 2 ^ 61 + 4 ^ (30 - l)).
+Proof.
+  intros c f l k n H Hn. split; [exact (Advance_index c f l k n H Hn)|].
+  split; [exact (Advance_in_range c f l k n H Hn)|exact (Advance_saturates c f l k n H Hn)].
+Qed.
+Print Assumptions c01_advance_is_clamped_index_plus_n.
+
+Theorem c01_advance_steps : forall c f l k, rep c f l k ->
+  s2_CellID_Advance c 1 = s2_CellID_Next c /\
+  (0 < index f l k -> s2_CellID_Advance c (-1) = s2_CellID_Prev c) /\
+  (forall n m, - 2 ^ 63 <= n < 2 ^ 63 -> - 2 ^ 63 <= m < 2 ^ 63 -> n <= m ->
+     s2_CellID_Advance c n <= s2_CellID_Advance c m) /\
+  (forall n m, - 2 ^ 63 <= n < 2 ^ 63 -> - 2 ^ 63 <= m < 2 ^ 63 -> - 2 ^ 63 <= n + m < 2 ^ 63 ->
+     0 <= index f l k + n < 6 * 4 ^ l ->
+     s2_CellID_Advance (s2_CellID_Advance c n) m = s2_CellID_Advance c (n + m)).
+Proof.
+  intros c f l k H. destruct (Advance_one c f l k H) as [A B]. split; [exact A|]. split; [exact B|]. split.
+  - intros n m Hn Hm Hnm. exact (Advance_monotone c f l k n m H Hn Hm Hnm).
+  - intros n m Hn Hm Hnm Hi. exact (Advance_compose c f l k n m H Hn Hm Hnm Hi).
+Qed.
+Print Assumptions c01_advance_steps.
 
 Theorem c01_descendants_enumerated : forall c f l k L, rep c f l k -> l <= L <= 30 ->
   (forall n : nat, Z.of_nat n <= 4 ^ (L - l) ->
